@@ -12,7 +12,7 @@ from pathlib import Path
 
 VERIF = Path(__file__).resolve().parent.parent
 REPO = Path(os.environ.get("BBLEAN_REPO", "/repo"))
-DRIVER_BIN = VERIF / "lean" / ".lake" / "build" / "bin" / "bbdriver"
+DRIVER_BIN = Path(os.environ.get("BB_DRIVER_BIN", VERIF / "lean" / ".lake" / "build" / "bin" / "bbdriver"))
 
 # The extension is not built in this sandbox; force the fallback so that a stray build can
 # not silently change which implementation is exercised (C13 ties the two).
